@@ -814,3 +814,17 @@ Proof.
   - unfold cfg_of. cbn [insts]. rewrite nth_error_app2 by (rewrite map_length; lia).
     now rewrite map_length, Nat.sub_diag.
 Qed.
+
+(* ---------- the observations compared with the implementation are the step outputs ---------- *)
+Fixpoint trace (s : st) (os : list op) : list obs :=
+  match os with
+  | [] => []
+  | o :: t => (fst (snd (step s o)), snd (snd (step s o)), view_of (fst (step s o))) :: trace (fst (step s o)) t
+  end.
+
+Lemma run_trace : forall os s, run s os = (exec s os, trace s os).
+Proof.
+  induction os as [|o t IH]; intros s; [reflexivity|].
+  cbn [run trace exec fold_left]. destruct (step s o) as [s1 [r cs]] eqn:E. cbn [fst snd].
+  rewrite (IH s1). reflexivity.
+Qed.
